@@ -445,6 +445,13 @@ void vfps::ProgramOptions::save(std::string fname)
                 ofs << it->first << '='
                     << _vm[it->first].as<bool>()
                     << std::endl;
+            } else if (it->second.value().type()
+                       == typeid(std::vector<integral_t>)) {
+                for (auto v : _vm[it->first].as<std::vector<integral_t>>()) {
+                    ofs << it->first << '='
+                        << v
+                        << std::endl;
+                }
             } else {
                 std::string val;
                 try {
